@@ -85,10 +85,10 @@ CHECKS = {
                 "nondeterministic flatness stub limited to K 'not flat' answers: on every path the final pieces are proved (linear "
                 "identities) equal to the blossom restriction of the original pieces to the dyadic intervals of an independently "
                 "maintained model, outer handles untouched, every final piece judged flat. F: the real predicate on 4 symbolic points "
-                "returns True exactly when both inner control points are within the flatness of the chord (QF_NRA). T: (i) second "
-                "differences of the halves are D1/4, (D1+D2)/8, D2/4; (ii, thorough) small second differences imply 'flat'.",
+                "returns True exactly when both inner control points are within the flatness of the chord (QF_NRA). T(i): second "
+                "differences of the halves are D1/4, (D1+D2)/8, D2/4 (so they shrink by 4 per level).",
         "note": "exact-real model; <= 3 nodes, K = 4 (quick) / 7 (thorough); pieces are processed independently and the depth bound "
-                "log4(max|D|/(flat/2))+1 follows from T(i)+(ii) on paper",
+                "log4(max|D|/(flat/2))+1 needs T(ii) (small second differences imply flat), left as a paper argument because z3 answered unknown",
         "technique": "symbolic execution of the Python source on z3 real terms + SMT (QF_LRA/QF_NRA) obligations per path; nondeterministic stub for the structural lemma; counterexample replay",
     },
     "C11": {
@@ -153,6 +153,15 @@ CHECKS = {
         "note": "the board model (class Board in checks/c16.py, transcribed from the docstrings/EBB reference) is the trusted base; "
                 "int.to_bytes/from_bytes stubbed as div/mod terms and differentially tested against CPython each run; ASCII nicknames <= 4 chars",
         "technique": "symbolic execution of the Python source against a symbolic-state device model (z3 arrays, integer terms, token strings) + SMT obligations per path, counterexample replay",
+    },
+    "C17": {
+        "text": "max_rate_t3 (with the rate_t3 calls it makes) is executed on symbolic rate/accel/jerk for each T of a list up to 64 (quick) / "
+                "256 (thorough); the vertex time is an exact rational with symbolic denominator, ceil() a fresh integer concretised by "
+                "forking. Every evaluated tick is proved to lie in 1..T (so reported <= true peak), reported >= |R(1)|,|R(T)|, and no tick "
+                "k in 1..T has |R(k)| > reported + |jerk| (quantifier over k unrolled; R = closed form proved in C02).",
+        "note": "T enumerated (not symbolic); binary64 operations of rate_t3 exact under |jerk|T^2,|accel|T < 2^40 (proved per operation); "
+                "rounding of t_mid itself is a paper argument",
+        "technique": "symbolic execution of the Python source on z3 integer terms (rationals with symbolic denominator) + SMT (linear integer arithmetic after concretising the tick) obligations per path, counterexample replay",
     },
     "C18": {
         "text": "Bounded-free symbolic execution of the four limit helpers over unbounded reals; every path's result, range "
